@@ -116,7 +116,7 @@ def main(ck, tier, w):
         peak = max([len(x['open']) for x in r.events if x['ev'] == 'fetched'] or [0])
         fds = max([x['fds'] for x in r.events if x['ev'] == 'fetched'] or [0])
         # descriptors that are not blk files (stdout, outputs, trace) are a constant: the real count must move with the open set
-        other = sorted({x['fds'] - len(x['open']) for x in r.events if x['ev'] == 'fetched'})
+        other = sorted({x.get('blkfds', len(x['open'])) - len(x['open']) for x in r.events if x['ev'] == 'fetched'})
         return j, r, tr, peak, (fds, other)
     ran = chains.pmap(tjob, jobs, 6)
     verdicts = tracecheck.validate_many([x[2] for x in ran], batch=2)
@@ -130,9 +130,9 @@ def main(ck, tier, w):
             probs.append('exit status %d: %s' % (r.rc, r.stderr[-200:]))
         if not v['accepted']:
             probs.append('trace rejected: %s at event %s %s' % (v['reason'], v['rejected_at'], v['event'] or ''))
-        if len(other) > 1:
-            probs.append('the number of file descriptors of the process does not follow the set of open blk files: descriptors minus '
-                         'open blk files ranges over %s during the run (peak %d descriptors)' % (other[:6], fds))
+        if other != [0]:
+            probs.append('the descriptors the process holds on blk files are not the open set of the bookkeeping: their number minus '
+                         'the size of the open set ranges over %s during the run (peak %d descriptors in all)' % (other[:6], fds))
         if j[2] == 'disjoint' and peak > 1:
             probs.append('%d blk files open at once although the height spans of the files do not overlap' % peak)
         if probs:
